@@ -119,20 +119,20 @@ func run(c *vf.Ctx) {
 
 	for _, fname := range []string{"sha1", "sha256"} {
 		idLen := 40
-		nC, nT := c.N(110, 2200), c.N(50, 900)
+		nC, nT := c.N(110, 700), c.N(50, 250)
 		if fname == "sha256" {
 			idLen = 64
-			nC, nT = c.N(40, 700), c.N(20, 300)
+			nC, nT = c.N(40, 250), c.N(20, 100)
 		}
 		if !side(c, g, bin, fname, idLen, nC, nT) {
 			return
 		}
 	}
 	c.Extra("git_invocations", gitx.Calls.Load())
-	c.Floor("objects where git called its verifier", c.Counter("git_verifier_calls"), c.N(170, 3500))
-	c.Floor("payload comparisons", c.Counter("payload_comparisons"), c.N(170, 3500))
-	c.Floor("objects without signature (both sides must refuse)", c.Counter("unsigned_objects"), c.N(30, 400))
-	c.Floor("mutated-after-decode objects", c.Counter("mutated_cases"), c.N(30, 600))
+	c.Floor("objects where git called its verifier", c.Counter("git_verifier_calls"), c.N(170, 1100))
+	c.Floor("payload comparisons", c.Counter("payload_comparisons"), c.N(170, 1100))
+	c.Floor("objects without signature (both sides must refuse)", c.Counter("unsigned_objects"), c.N(30, 150))
+	c.Floor("mutated-after-decode objects", c.Counter("mutated_cases"), c.N(30, 200))
 	c.Floor("objects signed by git", c.Counter("git_signed_objects"), 8)
 	c.Floor("verifier programs seen", c.SeenCount("verifier_programs"), 3)
 	c.Floor("distinct perturbations exercised", c.SeenCount("perturbations"), 80)
